@@ -480,6 +480,21 @@ func c14RunOps(s c14Scenario) (res c14Result) {
 	return
 }
 
+type c14BaseA struct{ Name string }
+type c14PageA struct {
+	c14BaseA
+	Title string
+}
+type c14BaseB struct {
+	Pad  int
+	Name string
+}
+type c14PageB struct {
+	Title string
+	Extra int
+	c14BaseB
+}
+
 func c14RunExec(s c14Scenario) (res c14Result) {
 	plush.CacheEnabled = s.Cache
 	defer func() { plush.CacheEnabled = false }()
@@ -541,6 +556,12 @@ func c14RunExec(s c14Scenario) (res c14Result) {
 	run := func(t *plush.Template, gid string) outcome {
 		ctx, env := mkctx(parent)
 		ctx.Set("gid", gid) // data that differs from execution to execution
+		// ... also in TYPE: px is a struct of one of two types that promote Name from embedded structs at different positions
+		if sum := len(gid) + int(gid[len(gid)-1]); sum%2 == 0 {
+			ctx.Set("px", c14PageA{c14BaseA: c14BaseA{Name: "A:" + gid}, Title: "ta"})
+		} else {
+			ctx.Set("px", c14PageB{Title: "tb", c14BaseB: c14BaseB{Name: "B:" + gid}})
+		}
 		// ... and so does the time format: every other execution binds its own TIME_FORMAT in its context
 		var gi, xi, qi int
 		if n, _ := fmt.Sscanf(gid, "g%dx%dq%d", &gi, &xi, &qi); n == 3 && (gi+xi)%2 == 1 {
